@@ -248,7 +248,8 @@ def walk_references(msg, out):
     """Collect identifiers of every TSP.Reference reachable inside a message."""
     for fd, val in msg.ListFields():
         if fd.type == fd.TYPE_MESSAGE:
-            vals = val if fd.label == fd.LABEL_REPEATED else [val]
+            rep = fd.is_repeated if hasattr(fd, "is_repeated") else fd.label == fd.LABEL_REPEATED
+            vals = val if rep else [val]
             for v in vals:
                 if v.DESCRIPTOR.full_name == "TSP.Reference":
                     out.append(v.identifier)
